@@ -17,7 +17,7 @@ from vlib import core
 from vlib.coqterm import App
 from props import c17
 
-HEADER = ('From Coq Require Import List NArith Bool.\nFrom DV Require Import C17.Model C18.Model C18.Service.\n'
+HEADER = ('From Coq Require Import List NArith Bool.\nFrom DV Require Import C17.Model C18.Model C18.Service C18.Dto C18.Wire.\n'
           'Import ListNotations.\nOpen Scope N_scope.\n')
 
 # ------------------------------------------------------------------ values
@@ -487,6 +487,31 @@ def to_dto(v):
     return {'simple': None, 'list': None, 'components': [{'name': k, 'value': to_dto(x), 'isNil': False} for k, x in v[1]]}
 
 
+def coq_opt_text(x):
+    return 'None' if x is None else '(Some %s)' % coq_text(x)
+
+
+def coq_bool(b):
+    return 'true' if b else 'false'
+
+
+def coq_dto(d):
+    """ValueDto as received (ordinary JSON) -> term of coq/C18/Dto.v `dto` (first member present among simple / components / list)"""
+    if not isinstance(d, dict):
+        return 'DNone'
+    sm = d.get('simple')
+    if isinstance(sm, dict):
+        return '(DSimple %s %s %s)' % (coq_opt_text(sm.get('type')), coq_opt_text(sm.get('text')), coq_bool(sm.get('isNil')))
+    cs = d.get('components')
+    if isinstance(cs, list):
+        return '(DComponents [%s])' % '; '.join('(%s, %s, %s)' % (coq_opt_text(c.get('name')), '(Some %s)' % coq_dto(c['value']) if isinstance(c.get('value'), dict) else 'None',
+                                                              coq_bool(c.get('isNil'))) for c in cs)
+    ls = d.get('list')
+    if isinstance(ls, dict):
+        return '(DList [%s] %s)' % ('; '.join(coq_dto(x) for x in ls.get('items', [])), coq_bool(ls.get('isNil')))
+    return 'DNone'
+
+
 def plain_json(doc):
     """strictly parsed document -> ordinary Python JSON (numbers as text)"""
     if doc is None or isinstance(doc, bool):
@@ -731,8 +756,8 @@ def gen_sequences(ctx, alphabet):
     seqs = [[idx[n] for n in ['add0', 'add0', 'replace0', 'deploy', 'eval11', 'replace4', 'eval11', 'deploy', 'eval11', 'tck11']],
             [idx[n] for n in ['add0', 'add1', 'replace3', 'add-bad-base64', 'deploy', 'eval-bad-utf8', 'eval11', 'eval12', 'remove1_12', 'eval11']],
             [idx[n] for n in ['add5', 'add0', 'deploy', 'eval14', 'eval11', 'add-oversized', 'eval11', 'eval-oversized', 'tck11', 'clear', 'eval11']]]
-    for _ in range(ctx.pick(110, 1500)):
-        L = ctx.rng.randint(6, ctx.pick(16, 40))
+    for _ in range(ctx.pick(90, 1500)):
+        L = ctx.rng.randint(6, ctx.pick(14, 40))
         s = []
         for _ in range(L):
             r = ctx.rng.random()
@@ -801,13 +826,16 @@ def value_kinds(v, acc):
 
 
 def run(ctx):
+    t0 = time.time()
     ctx.proof_gate()
+    t1 = time.time()
     exe = ctx.build_harness()
+    t2 = time.time()
     kinds = set()
     # ---- (a) Jsonify in process
     vals = [('s', 'Hello Jo"hn'), ('l', [('s', 'a", "b')]), ('c', [('a": 1, "b', None)]), ('o', 1, 'date("2021-01-01")'),
             ('s', '\\'), ('s', '\x00\x1f\x7f'), ('c', [('', ('s', ''))]), ('n', True, '0', '00000015'), ('n', False, '1' + '0' * 30, '')]
-    for _ in range(ctx.pick(2500, 40000)):
+    for _ in range(ctx.pick(1800, 40000)):
         vals.append(gen_value(ctx.rng))
     impl = ctx.run_impl('json', [{'v': to_req(v)} for v in vals])
     real, keep = [], []
@@ -836,6 +864,7 @@ def run(ctx):
         if len(ctx.samples) < 2 and ok and vr is not None and not isinstance(vr, bool) and vr[0] == 'c' and len(vr[1]) >= 2:
             ctx.sample({'value': feel_value(v)[:200], 'rendered': ''.join(chr(c) for c in r['json'])[:200]})
     # ---- (b) the live service
+    t3 = time.time()
     hist = {}
     svc = Service(exe)
     n_http = 0
@@ -847,6 +876,8 @@ def run(ctx):
         n_http += live_values(ctx, svc, kinds)
     finally:
         svc.stop()
+    ctx.cov['phase_seconds'] = {'proof_gate_incl_lock_wait': round(t1 - t0, 1), 'harness_build_incl_lock_wait': round(t2 - t1, 1),
+                                'jsonify_in_process': round(t3 - t2, 1), 'live_service': round(time.time() - t3, 1)}
     return ctx.finish(
         rule='(a) %d generated values (strings and keys over quotation mark, reverse solidus, control, non-ASCII and astral characters; numbers; nested lists and '
              'contexts; dates, times, durations, ranges, functions) rendered by Value::jsonify in process; (b) live service: %d request sequences over the C17 '
@@ -877,7 +908,7 @@ def live_values(ctx, svc, kinds):
     """constant decisions (generated FEEL literals inside a deployed model), echo decisions over typed inputs, TCK round trips"""
     n_req = 0
     rng = ctx.rng
-    batches = ctx.pick(12, 150)
+    batches = ctx.pick(8, 150)
     per = 25
     for b in range(batches):
         vals = [gen_value(rng) for _ in range(per)]
@@ -926,6 +957,7 @@ def live_values(ctx, svc, kinds):
     if r1[0] != 'data' or r2[0] != 'data':
         ctx.corr_broken('echo model not accepted', {}, str(r1)[:300], 'data')
         return n_req
+    tck_cases = []
     temporal = {'xd': (1, 'date', ['2021-01-31', '1999-12-31']), 'xt': (2, 'time', ['10:20:30', '23:59:59Z']),
                 'xdt': (3, 'date and time', ['2021-01-31T10:20:30', '2000-02-29T00:00:00Z']),
                 'xym': (4, 'duration', ['P1Y2M', '-P3M']), 'xdd': (5, 'duration', ['P1DT2H', '-PT0.5S', 'PT0S'])}
@@ -987,8 +1019,23 @@ def live_values(ctx, svc, kinds):
         if got[0] != 'data' or plain_json(got[1][1]) != want_dto:
             ctx.violation('/tck/evaluate: the typed value sent is not the typed value received: sent %s' % jd(req['input'])[:200], case,
                           impl=repr(resp[2][:700]) if resp[0] != 'transport' else resp[1], model=jd({'data': want_dto})[:700])
-        elif want is not None and not isinstance(want, bool) and want[0] in ('c', 'o'):
-            ctx.nontrivial.add(jd(req)[:300])
+        else:
+            tck_cases.append((want, resp[2], plain_json(got[1][1]), case))
+            if want is not None and not isinstance(want, bool) and want[0] in ('c', 'o'):
+                ctx.nontrivial.add(jd(req)[:300])
+    # the Coq DTO model against the same answers: value -> to_dto0 -> JSON tree -> compact text must be the body received,
+    # and the DTO received, read by from_dto0, must be the value sent (C18_tck_roundtrip_concrete is about these functions)
+    terms = ['(tck_body (%s), from_dto0 %s)' % (coq_value(w), coq_dto(pj.get('value'))) for w, _, pj, _ in tck_cases]
+    model = ctx.run_model(HEADER, terms, shard_size=60, tag='tck')
+    for (w, raw, pj, case), (mbody, mback) in zip(tck_cases, model):
+        ctx.corr_checked += 1
+        body_model = ''.join(chr(c) for c in mbody)
+        back = of_coq_value(mback.args[0]) if isinstance(mback, App) and mback.name == 'Some' else 'None'
+        if back != w:
+            ctx.corr_broken('TCK: coq from_dto0 of the DTO received is not the value sent', case, str(back)[:300], jd(to_req(w))[:300])
+        elif raw.decode('utf-8') != body_model:
+            ctx.corr_broken('TCK: /tck/evaluate body differs from coq tck_body (same document)', case, repr(raw[:300]), body_model[:300])
+    ctx.cov['tck_round_trips_through_coq_model'] = len(tck_cases)
     return n_req
 
 
